@@ -506,6 +506,113 @@ c04_restore!(
     BitsPerSample::Bps32
 );
 
+// Restoration correctness (C03): for channel values that a VALID stream can
+// carry (the restored left/right samples fit the bit depth), the restored
+// samples are exactly those of RFC 9639 section 4.2 / 9.1.3.
+macro_rules! c03_restore {
+    ($name:ident, $ca:expr, $bps_enum:expr, $bps:expr, $mode:expr) => {
+        #[kani::proof]
+        #[kani::unwind(12)]
+        fn $name() {
+            let a: [u64; 2] = kani::any();
+            let b: [u64; 2] = kani::any();
+            let vals = restore_script2(a, b, kani::any());
+            let mut r = ModelBits::new(Script::new(&vals), 63);
+            let mut buf = Frame::default();
+            let h = hdr(2, $ca, $bps_enum);
+            let res = read_subframes(&mut r, &h, &mut buf);
+            assert!(res.is_ok());
+            // reference: sign-extend the raw fields at the widths the RFC gives them
+            let sx = |raw: u64, bits: u32| -> i128 {
+                let v = (raw & mask64(bits)) as i128;
+                if (v >> (bits - 1)) & 1 == 1 { v - (1i128 << bits) } else { v }
+            };
+            let mut k = 0;
+            while k < 2 {
+                // mode 0 left/side, 1 side/right, 2 mid/side
+                let (l, rr): (i128, i128) = match $mode {
+                    0 => {
+                        let left = sx(a[k], $bps);
+                        let side = sx(b[k], $bps + 1);
+                        (left, left - side)
+                    }
+                    1 => {
+                        let side = sx(a[k], $bps + 1);
+                        let right = sx(b[k], $bps);
+                        (side + right, right)
+                    }
+                    _ => {
+                        let mid = sx(a[k], $bps);
+                        let side = sx(b[k], $bps + 1);
+                        let m2 = (mid << 1) | (side & 1);
+                        ((m2 + side) >> 1, (m2 - side) >> 1)
+                    }
+                };
+                if refmodel::fits(l, $bps) && refmodel::fits(rr, $bps) {
+                    let mut it = buf.channels();
+                    let c0 = it.next().unwrap();
+                    let c1 = it.next().unwrap();
+                    assert!(i128::from(c0[k]) == l);
+                    assert!(i128::from(c1[k]) == rr);
+                }
+                k += 1;
+            }
+            kani::cover!(res.is_ok());
+            std::mem::forget(res);
+            std::mem::forget(buf);
+        }
+    };
+}
+
+// @harness prop=C03 tier=quick expect=pass timeout=600
+// @units decode::read_subframes(LeftSide)
+// @bound block 2, LEFT_SIDE, 16 bps, every pair of in-type channel values whose restored samples fit 16 bits
+// @oracle restored (left, right) == (left, left - side) computed in i128
+c03_restore!(c03_restore_leftside_b16, ChannelAssignment::LeftSide, BitsPerSample::Bps16, 16, 0);
+
+// @harness prop=C03 tier=quick expect=pass timeout=600
+// @units decode::read_subframes(SideRight)
+// @bound block 2, SIDE_RIGHT, 31 bps (STREAMINFO-referenced; 32-bit side channel in an i32)
+// @oracle restored (left, right) == (side + right, right)
+c03_restore!(c03_restore_sideright_b31, ChannelAssignment::SideRight, BitsPerSample::Streaminfo(sbc32(31)), 31, 1);
+
+// @harness prop=C03 tier=quick expect=pass timeout=600
+// @units decode::read_subframes(MidSide)
+// @bound block 2, MID_SIDE, 16 bps
+// @oracle restored == RFC mid/side reconstruction ((mid<<1 | side&1) +/- side) >> 1
+c03_restore!(c03_restore_midside_b16, ChannelAssignment::MidSide, BitsPerSample::Bps16, 16, 2);
+
+// @harness prop=C03 tier=quick expect=pass timeout=600
+// @units decode::read_subframes(MidSide,32bps)
+// @bound block 2, MID_SIDE at 32 bps (33-bit side channel, i64 path)
+// @oracle restored == RFC mid/side reconstruction
+c03_restore!(c03_restore_midside_b32, ChannelAssignment::MidSide, BitsPerSample::Bps32, 32, 2);
+
+// @harness prop=C03 tier=quick expect=pass timeout=600
+// @units decode::read_subframes(LeftSide,32bps)
+// @bound block 2, LEFT_SIDE at 32 bps (33-bit side channel)
+c03_restore!(c03_restore_leftside_b32, ChannelAssignment::LeftSide, BitsPerSample::Bps32, 32, 0);
+
+// @harness prop=C03 tier=quick expect=pass timeout=600
+// @units decode::read_subframes(SideRight,32bps)
+// @bound block 2, SIDE_RIGHT at 32 bps (33-bit side channel)
+c03_restore!(c03_restore_sideright_b32, ChannelAssignment::SideRight, BitsPerSample::Bps32, 32, 1);
+
+// @harness prop=C03 tier=thorough expect=pass timeout=600
+// @units decode::read_subframes(MidSide)
+// @bound block 2, MID_SIDE, 31 bps
+c03_restore!(c03_restore_midside_b31, ChannelAssignment::MidSide, BitsPerSample::Streaminfo(sbc32(31)), 31, 2);
+
+// @harness prop=C03 tier=thorough expect=pass timeout=600
+// @units decode::read_subframes(LeftSide)
+// @bound block 2, LEFT_SIDE, 8 bps
+c03_restore!(c03_restore_leftside_b8, ChannelAssignment::LeftSide, BitsPerSample::Bps8, 8, 0);
+
+// @harness prop=C03 tier=thorough expect=pass timeout=600
+// @units decode::read_subframes(SideRight)
+// @bound block 2, SIDE_RIGHT, 24 bps
+c03_restore!(c03_restore_sideright_b24, ChannelAssignment::SideRight, BitsPerSample::Bps24, 24, 1);
+
 // vacuity twin: same harness shape with a final assert(false) must FAIL
 // @harness prop=C04 tier=quick expect=fail timeout=600
 // @units decode::read_subframes(MidSide)
